@@ -17,6 +17,10 @@ pub fn dispatch(op: &str, req: &Value) -> Result<Value, String> {
     if let Some(kind) = op.strip_prefix("c04:") {
         return crate::ops_common::c04(kind, req);
     }
+    #[cfg(feature = "common")]
+    if op == "c10acc" {
+        return crate::ops_common::c10acc(req);
+    }
     if op == "c19:roundtrip" {
         return c19(req);
     }
